@@ -97,7 +97,7 @@ def main(tier):
             PROP,
             "props.c08",
             tier,
-            6500,
+            8800,
             40000,
             rule_text="one evaluation per monitored fix run whose output is re-parsed and re-checked (non-trivial = the output was accepted and compared token by token), plus CLI cases (--fix then plain run on the written file); distinct by case description",
             assumptions=["model = (token class, value, indent) of every token; fresh parse under the same configuration object"],
